@@ -252,6 +252,9 @@ def gen_pipeline(draw, tier="quick", kind="srf"):
     n = draw(st.integers(2, 7))
     pos = draw(gens.point_cloud(dim, n_min=n, n_max=n, kinds=("cloud",)))
     case = {"kind": kind, "spec": spec, "pos": pos, "seed": draw(st.integers(0, 2**31 - 1))}
+    if kind in ("krige", "condsrf") and draw(st.integers(0, 2)) == 0:
+        # the object is built with another orientation; the model is then re-oriented in place and refreshed as documented
+        case["start"] = {"anis": draw(st.lists(logfloat(0.15, 6.0), min_size=dim - 1, max_size=dim - 1)), "angles": draw(_angles(geo.n_angles(dim)))}
     if kind in ("krige", "condsrf", "covx"):
         ncond = draw(st.integers(1 if kind == "covx" else 2, 6))
         if kind == "covx":
@@ -282,6 +285,20 @@ def _mk_krige(model, case, cond_pos):
     if case["variant"] == "simple":
         return gs.krige.Simple(model, cond_pos, case["cond_val"], mean=case["mean"])
     return gs.krige.Ordinary(model, cond_pos, case["cond_val"])
+
+
+def _mk_reoriented(m_a, spec, case, cp, rec):
+    """The kriging object for model m_a; optionally reached by re-orienting the model of an existing object in place."""
+    start = case.get("start")
+    if not start:
+        return _mk_krige(m_a, case, cp)
+    rec.label("reoriented_in_place")
+    m0 = build_model(dict(spec, anis=start["anis"], angles=start["angles"]))
+    k = _mk_krige(m0, case, cp)
+    k.model.anis = spec["anis"]
+    k.model.angles = spec["angles"]
+    k.set_condition()  # the documented refresh after in-place model changes
+    return k
 
 
 def check_pipeline(case, rec):
@@ -317,7 +334,7 @@ def check_pipeline(case, rec):
     elif kind == "krige":
         cp = np.array(case["cond_pos"], dtype=float).reshape(dim, -1)
         cp_iso = M @ cp
-        k_a = lib(_mk_krige, m_a, case, cp, _tags=tags)
+        k_a = lib(_mk_reoriented, m_a, spec, case, cp, rec, _tags=tags)
         k_i = lib(_mk_krige, m_i, case, cp_iso, _tags=tags)
         f_a, v_a = lib(k_a, pos, _tags=tags)
         f_i, v_i = lib(k_i, pos_iso, _tags=tags)
@@ -334,7 +351,7 @@ def check_pipeline(case, rec):
     elif kind == "condsrf":
         cp = np.array(case["cond_pos"], dtype=float).reshape(dim, -1)
         cp_iso = M @ cp
-        k_a = lib(_mk_krige, m_a, case, cp, _tags=tags)
+        k_a = lib(_mk_reoriented, m_a, spec, case, cp, rec, _tags=tags)
         k_i = lib(_mk_krige, m_i, case, cp_iso, _tags=tags)
         c_a = lib(lambda: gs.CondSRF(k_a, mode_no=case["mode_no"])(pos, seed=case["seed"]), _tags=tags)
         c_i = lib(lambda: gs.CondSRF(k_i, mode_no=case["mode_no"])(pos_iso, seed=case["seed"]), _tags=tags)
